@@ -114,7 +114,7 @@ theorem C09_whole_walk (dir : Bool) (cmd : Bytes) (tmpl : List Bytes) (start : B
     (c : Config) (m : FuModel.Find.Expr.M Prim) (root : Node Attr) (g : GS)
     (hall : m.AllP (SoleOnce dir cmd tmpl)) (hone : m.weight wT ≤ 1)
     (hwalk : ((refCfg c).depthFirst = false ∧ PruneOkN (refCfg c) (evalEntry m start) [] 0 (if c.sorted then sortNode root else root)) ∨
-             ((refCfg c).depthFirst = true ∧ ¬ HRootLink (refCfg c) (if c.sorted then sortNode root else root))) :
+             (refCfg c).depthFirst = true) :
     let n := if c.sorted then sortNode root else root
     ∃ L, (processDir c m start (some root) g).gs.execs = g.execs ++ L ∧
       L.Sublist ((visitsN (refCfg c) [] 0 n).map (eventOf dir cmd tmpl start)) :=
@@ -138,13 +138,11 @@ example :
     let c : Config := { depthFirst := true }
     let root : Node Attr := .dir [116] false true { lty := 'd', sty := 'd' } [.leaf [97] .plain { lty := 'f', sty := 'f' }]
     m.AllP (SoleOnce false [99] [[120, 123, 125]]) ∧ m.weight wT ≤ 1 ∧
-      ((refCfg c).depthFirst = true ∧ ¬ HRootLink (refCfg c) (if c.sorted then sortNode root else root)) ∧
+      (refCfg c).depthFirst = true ∧
       (visitsN (refCfg c) [] 0 root).map (eventOf false [99] [[120, 123, 125]] [116]) =
         [⟨[[99], [120, 116, 47, 97]], none⟩, ⟨[[99], [120, 116]], none⟩] := by
   intro m c root
-  refine ⟨by simp [m, FuModel.Find.Expr.M.AllP, FuModel.Find.Expr.M.AllP.AllPs, SoleOnce, quiet], by decide, ⟨rfl, ?_⟩, by decide⟩
-  rintro ⟨h, _⟩
-  cases h
+  exact ⟨by simp [m, FuModel.Find.Expr.M.AllP, FuModel.Find.Expr.M.AllP.AllPs, SoleOnce, quiet], by decide, rfl, by decide⟩
 
 /-- **`find START TEST -exec CMD ARGS ;` / `-execdir … ;`, exactly** (proof: `whole_walk_once_exact`
     in `Proofs/ExecOnceExact.lean`): for every tree, follow mode, depth range and traversal order
@@ -153,12 +151,11 @@ example :
     entry that satisfies the test, in visit order, each with that entry's substituted argument
     vector and working directory (`eventOf`) — whatever the commands return. -/
 theorem C09_exact (dir : Bool) (cmd : Bytes) (tmpl : List Bytes) (start : Bytes)
-    (t : Prim) (ht : isTestP t = true) (c : Config) (root : Node Attr) (g : GS)
-    (hH : (refCfg c).depthFirst = true → ¬ HRootLink (refCfg c) (if c.sorted then sortNode root else root)) :
+    (t : Prim) (ht : isTestP t = true) (c : Config) (root : Node Attr) (g : GS) :
     let n := if c.sorted then sortNode root else root
     (processDir c (.and [.prim t, .prim (.exec dir true cmd tmpl)]) start (some root) g).gs.execs =
       g.execs ++ (visitsN (refCfg c) [] 0 n).flatMap (ranBy dir cmd tmpl start t) :=
-  whole_walk_once_exact dir cmd tmpl start t ht c root g hH
+  whole_walk_once_exact dir cmd tmpl start t ht c root g
 
 /-- the right-hand side on a concrete run: `find t -type f -execdir c x{} ;` -/
 example :
